@@ -601,6 +601,18 @@ class Expander:
                 for c_ in clos:
                     if c_[0] < bar and c_[3] >= be:
                         c_[3] += grown_
+        # rule E6b: a module-level constant of the function's source file that the body names (`const NAME: <plain type> = <literal>;`)
+        # and that the template does not know is repeated as a local `const` item at the top of the emitted body - a constant
+        # introduced or renamed by a change stays decidable, with its value
+        for cname_ in sorted(set(re.findall(r'\b[A-Z][A-Z0-9_]{2,}\b', body_text))):
+            if re.search(r'\b%s\b' % cname_, getattr(self, 'template_text', '')):
+                continue
+            mc_ = re.search(r"(?m)^(?:pub(?:\([a-z]+\))?\s+)?const %s\s*:\s*(usize|u8|u32|u64|i32|i64|bool|f64|&(?:'static )?str)\s*=\s*(\"(?:[^\"\\\\]|\\\\.)*\"|[^;\n]+);" % cname_, s.text)
+            if not mc_ or not re.fullmatch(r'[0-9][0-9_]*(?:\s*(?:[*+\-]|<<)\s*[0-9][0-9_]*)*|[0-9][0-9_]*\.[0-9_]+|"[^"\\]*"|true|false', mc_.group(2).strip()):
+                continue
+            body_text = '{\nconst %s: %s = %s;   // (module-level constant of %s, repeated here: rule E6b)\n' % (cname_, "&'static str" if mc_.group(1) == '&str' else mc_.group(1), mc_.group(2).strip(), kv['file']) + body_text[1:]
+            self.local_rewrites.append({'fn': label, 'regex': '<const %s>' % cname_, 'replacement': '<module-level constant repeated as a local item>', 'count': 1})
+            self.rules_fired['E6b'] = self.rules_fired.get('E6b', 0) + 1
         if 'pre' in sections:
             body_text = '{\n' + '\n'.join(sections['pre']) + '\n' + body_text[1:]
 
@@ -662,6 +674,7 @@ class Expander:
                 lines[k:k + 1] = inc_lines
                 continue
             k += 1
+        self.template_text = '\n'.join(lines)
         i = 0
         while i < len(lines):
             ln = lines[i]
